@@ -1,5 +1,5 @@
 import PlzVerif.Lemmas.AspLex
-import PlzVerif.Model.AspParse
+import PlzVerif.Lemmas.AspParse
 import PlzVerif.Generated.C19
 /-!
 C19  The BUILD parser is total and fails only with positioned errors.
@@ -154,6 +154,61 @@ theorem C19_concat_runtime_iff (k1 k2 : VKind) :
     concatKinds k1 k2 = .error (.runtime 0) ↔ k1 = .plain ∧ k2 = .fstr 0 := by
   cases k1 <;> cases k2 <;> simp [concatKinds]
   all_goals (try split) <;> simp_all
+
+/-- parse_total.  The fuel `parseFile` hands out (a multiple of the token-level progress measure of the
+    lexer at the start) is never exhausted: every call chain of the grammar consumes a token or descends
+    in rank. -/
+theorem C19_parse_total (data : Bytes) : errOf (parseFile data) ≠ some .outOfFuel := by
+  have h := parseFile_spec data C19_sentinels_ok
+  cases hp : parseFile data with
+  | ok v => simp [errOf]
+  | error e =>
+    rw [hp] at h
+    simp only [errOf]
+    intro he
+    cases he
+    exact h
+
+/-- The parser never drives the lexer out of its buffer: it consumes the EOF token at most once, and then
+    fails at once (`parseFile_spec`; cf. `C19_next_at_buffer_end_is_oob` for what a further `Next()` would do). -/
+theorem C19_parse_in_bounds (data : Bytes) :
+    (∀ i, errOf (parseFile data) ≠ some (.lex (.oob i))) ∧ errOf (parseFile data) ≠ some (.lex .emptyStack) := by
+  have h := parseFile_spec data C19_sentinels_ok
+  cases hp : parseFile data with
+  | ok v => simp [errOf]
+  | error e =>
+    rw [hp] at h
+    simp only [errOf]
+    constructor
+    · intro i he
+      cases he
+      obtain ⟨p, m, hpm, _⟩ := h
+      cases hpm
+    · intro he
+      cases he
+      obtain ⟨p, m, hpm, _⟩ := h
+      cases hpm
+
+/-- parse_errors_classified (partial with respect to the property: the third alternative is the known
+    defect).  Whatever makes parsing stop is a positioned lexer error inside the input, a positioned parser
+    error (inside the input, or the f-string brace error whose position is computed inside the token), or
+    the concatStrings runtime error of `C19_witness_concat_runtime`. -/
+theorem C19_parse_errors_partial (data : Bytes) (e : PErr) (h : parseFile data = .error e) :
+    (∃ pos msg, e = .lex (.fail pos msg) ∧ pos ≤ inputEnd data) ∨
+    (∃ pos kind, e = .fail pos kind ∧ (pos ≤ inputEnd data ∨ kind = .fbrace)) ∨
+    e = .runtime 0 := by
+  have hs := parseFile_spec data C19_sentinels_ok
+  rw [h] at hs
+  cases e with
+  | lex le =>
+    obtain ⟨p, m, hpm, hp⟩ := hs
+    exact Or.inl ⟨p, m, by rw [hpm], hp⟩
+  | fail p k => exact Or.inr (Or.inl ⟨p, k, rfl, hs⟩)
+  | runtime s =>
+    have : s = 0 := hs
+    subst this
+    exact Or.inr (Or.inr rfl)
+  | outOfFuel => exact absurd hs (by simp [GoodErr])
 
 -- the neighbouring shapes parse: f-string first, or an f-string with a variable after the plain string
 example : errOf (parseFile "x = f\"a\" \"b\"\n".toUTF8.data) = none := by decide +kernel
